@@ -93,4 +93,12 @@ Definition idx_add (idx : list (list N * list N * list N)) (t : list N * list N 
 Definition scan_directory (files : list (list N)) : list (list N * list N * list N) :=
   fold_left (fun idx f => match scan_file f with Some t => idx_add idx t | None => idx end) files [].
 
+(* Explorer.Scan on an explorer that already holds an index: the old index is cleared, then the
+   directory is scanned.  An explorer's life is a sequence of scans of whatever is on disk
+   at the time. *)
+Definition rescan (old : list (list N * list N * list N)) (files : list (list N)) :=
+  scan_directory files.
+Definition explorer_run (history : list (list (list N))) : list (list N * list N * list N) :=
+  fold_left rescan history [].
+
 End SwampName.
